@@ -98,6 +98,9 @@ type Case struct {
 	Reqs    []Req    `json:"reqs"`
 }
 
+// spellTable counts (endpoint | spelling class | what the server made of it).
+var spellTable = map[string]int{}
+
 type leak struct {
 	sig, observed string
 }
@@ -311,7 +314,11 @@ func oracle(c Case) vkit.Outcome {
 		} else {
 			labels[rq.Route+" "+statusClass(st)] = true
 			if rq.Spelling != "" {
-				labels["spelling | "+rq.Route+" | "+rq.Spelling+" | "+resolved] = true
+				// the full (endpoint, spelling class, resolution) table goes to
+				// the evidence as coverage.spelling_table (the driver keeps only
+				// the 200 most frequent labels); the label is per family
+				spellTable[rq.Route+" | "+rq.Spelling+" | "+resolved]++
+				labels["spelling "+spellFamily[rq.Spelling]+" | "+rq.Route+" | "+resolved] = true
 			}
 			if st/100 == 2 && nonEmpty {
 				out.NonTrivial = true
@@ -389,7 +396,12 @@ func TestC44(t *testing.T) {
 					classes[n.class]++
 				}
 			}
-			return map[string]any{"canaries_by_class": classes, "needles": len(w.reg.needles), "routes": len(w.routes), "setting_names": len(w.names)}
+			var table []string
+			for k := range spellTable {
+				table = append(table, k)
+			}
+			sort.Strings(table)
+			return map[string]any{"spelling_table": table, "canaries_by_class": classes, "needles": len(w.reg.needles), "routes": len(w.routes), "setting_names": len(w.names)}
 		},
 	})
 }
